@@ -432,9 +432,14 @@ class Reader:
 
 
 def same_bits(a, b) -> bool:
-    a = np.ascontiguousarray(np.asarray(a, dtype=float))
-    b = np.ascontiguousarray(np.asarray(b, dtype=float))
-    return a.shape == b.shape and a.tobytes() == b.tobytes()
+    a = np.array(a, dtype=float)
+    b = np.array(b, dtype=float)
+    if a.shape != b.shape:
+        return False
+    # every NaN is the same observation (sign and payload of a NaN are not defined by the arithmetic)
+    a[np.isnan(a)] = np.nan
+    b[np.isnan(b)] = np.nan
+    return np.ascontiguousarray(a).tobytes() == np.ascontiguousarray(b).tobytes()
 
 
 def close_cfg(a, b, tol=TOL) -> bool:
@@ -550,7 +555,14 @@ def check_run(ctx, case, run, ret, n_steps, sim_type, tag="mc", whole_limit=4000
             if bool(cont_post) == last:
                 bad("loop exit", "returned" if last else "continued", "continue" if cont_post else "exit")
             fin = bool(np.isfinite(st.test_snap).all() and math.isfinite(float(st.chi2_new)))
-            if bool(defined) and not fin:
+            if bool(defined) and not fin and st.change == 2:
+                # the proposal of an atom move is the implementation's own move_mol_atom output (an input of
+                # this transition): its definedness is C07's (`displ_defined`, `move_defined`), e.g. a hub whose
+                # neighbours are collinear; here only "a non-finite proposal is never accepted" matters
+                ctx.count(f"{tag}:atom-move-proposal-not-finite(C07 hypotheses fail)")
+                if st.accepted:
+                    bad("non-finite atom-move proposal accepted", st.accepted, False)
+            elif bool(defined) and not fin:
                 bad("model says all divisors non-zero but the implementation's values are not finite", fin, defined)
             if not defined:
                 ctx.count(f"{tag}:undefined-step")
